@@ -119,7 +119,7 @@ def conv_case(ctx, rng, lines, pend):
         A = hlp.get_a_factor(xa)
         if tuple(xa.shape) != tuple(x.shape) or not torch.equal(xa, x.detach()):
             ctx.fail('get_a_factor changed the tensor it was given', case, 'input-mutated')
-        gc = gout.clone()
+        gc = relayout(gout)          # (the output gradient of a channels_last convolution is channels_last too)
         G = hlp.get_g_factor(gc)
         if tuple(gc.shape) != tuple(gout.shape) or not torch.equal(gc, gout):
             ctx.fail('get_g_factor changed the tensor it was given', case, 'input-mutated')
@@ -131,6 +131,9 @@ def conv_case(ctx, rng, lines, pend):
     wantA = P1.t() @ P1 / (P1.shape[0] * (oh * ow) ** 2)
     if tuple(A.shape) != tuple(wantA.shape) or (A - wantA).abs().max().item() > 1e-12 * max(1e-30, wantA.abs().max().item()):
         ctx.fail('conv A factor is not the second moment of the rows [patch|1] (uniformly scaled by 1/(rows·(out_h·out_w)²))', case, 'conv-a-moment')
+    wantG = Grow.t() @ Grow / (Grow.shape[0] * (oh * ow) ** 2)
+    if tuple(G.shape) != tuple(wantG.shape) or (G - wantG).abs().max().item() > 1e-12 * max(1e-30, wantG.abs().max().item()):
+        ctx.fail('conv G factor is not the second moment of the per-position output-gradient rows (uniformly scaled by 1/(rows·(out_h·out_w)²))', case, 'conv-g-moment')
     if got.shape != want.shape or not torch.equal(got, want):
         ctx.fail('get_grad() is not the sum over samples and positions of outer(output-gradient row, input-patch row|1)', case, 'grad-layout')
     if tuple(patches.shape) != (N, oh, ow, cin * kh * kw) or not torch.equal(patches.reshape(N * oh * ow, -1), P):
